@@ -153,6 +153,34 @@ fn eq_ord_hash<R: Rep, const N: usize>() {
     core::mem::forget(d2);
 }
 
+/// Same arcs, different vertex sets (orders N and M, N < M): never equal.
+fn different_order<R: Rep, const N: usize, const M: usize>() {
+    cx::set_vcap(M * M);
+
+    let g1 = G::<N>::any();
+    let g2 = G::<M>::any();
+    let d1 = build_up::<R, N>(&g1);
+    let d2 = build_up::<R, M>(&g2);
+    let mut same_arcs = true;
+
+    for u in 0..M {
+        for v in 0..M {
+            let a = u < N && v < N && g1.a[u][v];
+
+            if a != g2.a[u][v] {
+                same_arcs = false;
+            }
+        }
+    }
+
+    assert!(d1 != d2, "digraphs with different vertex sets are never equal");
+    assert!(d1.cmp(&d2) != Ordering::Equal, "digraphs with different vertex sets never compare Equal");
+    assert!(d1.cmp(&d2) == d2.cmp(&d1).reverse(), "ordering is antisymmetric");
+    kani::cover!(same_arcs && g1.size() > 0, "same non-empty arc set, one extra isolated vertex");
+    core::mem::forget(d1);
+    core::mem::forget(d2);
+}
+
 fn clone_independent<R: Rep, const N: usize>() {
     cx::set_vcap(N * N);
 
@@ -287,6 +315,35 @@ pub fn c20_eq_ord_hash_adjacency_map_n3() {
 #[cfg_attr(kani, kani::unwind(10))]
 pub fn c20_weighted_n3() {
     weighted::<3>();
+}
+
+// Same arc set but orders 2 and 3 (an extra isolated vertex): never equal, never Ordering::Equal.
+// @verif prop=C20 tier=quick fl=f0 role=different-order/matrix t=1200 mem=12
+#[cfg_attr(kani, kani::proof)]
+#[cfg_attr(kani, kani::unwind(10))]
+pub fn c20_different_order_matrix_n2_n3() {
+    different_order::<AdjacencyMatrix, 2, 3>();
+}
+
+// @verif prop=C20 tier=quick fl=f1 role=different-order/edge-list t=1200 mem=12
+#[cfg_attr(kani, kani::proof)]
+#[cfg_attr(kani, kani::unwind(10))]
+pub fn c20_different_order_edge_list_n2_n3() {
+    different_order::<EdgeList, 2, 3>();
+}
+
+// @verif prop=C20 tier=quick fl=f2 role=different-order/adjacency-list t=1200 mem=12
+#[cfg_attr(kani, kani::proof)]
+#[cfg_attr(kani, kani::unwind(10))]
+pub fn c20_different_order_adjacency_list_n2_n3() {
+    different_order::<AdjacencyList, 2, 3>();
+}
+
+// @verif prop=C20 tier=quick fl=f1 role=different-order/adjacency-map t=1200 mem=12
+#[cfg_attr(kani, kani::proof)]
+#[cfg_attr(kani, kani::unwind(10))]
+pub fn c20_different_order_adjacency_map_n2_n3() {
+    different_order::<AdjacencyMap, 2, 3>();
 }
 
 // @verif prop=C20 tier=quick fl=f0 role=clone/matrix t=1200 mem=12
